@@ -28,12 +28,13 @@
 (***************************************************************************)
 EXTENDS Naturals, Sequences, FiniteSets, TLC
 
-Classes  == {"notests", "prepend", "append_fail", "skip", "timeout", "allpass", "fail", "failcode"}
+\* "killed": three test blocks, the shell of the second one is killed by a signal (no exit code: nothing to write an update from)
+Classes  == {"notests", "prepend", "append_fail", "skip", "timeout", "killed", "allpass", "fail", "failcode"}
 Failing  == {"fail", "failcode", "append_fail"}
 Runnable == Failing \cup {"allpass"}
 Formats  == {"md", "cram"}
 \* cram documents have no front matter and no per-test configuration
-ClassesOf(f) == IF f = "md" THEN Classes ELSE Classes \ {"prepend", "append_fail", "timeout"}
+ClassesOf(f) == IF f = "md" THEN Classes ELSE Classes \ {"prepend", "append_fail", "timeout", "killed"}
 DocKinds == {d \in [fmt : Formats, cls : Classes, stale : BOOLEAN] : d.cls \in ClassesOf(d.fmt)}
 FlagSets == [replace : BOOLEAN, yes : BOOLEAN, convert : {"none", "md", "cram"}]
 
@@ -60,7 +61,7 @@ Advance == i' = i + 1 /\ UNCHANGED <<docs, flags, status>>
 SkipNoTests == Running /\ Cur.cls = "notests" /\ Bump("skipped") /\ Advance /\ UNCHANGED fs
 SkipPrepend == Running /\ Cur.cls = "prepend" /\ Bump("skipped") /\ Advance /\ UNCHANGED fs
 SkipCode    == Running /\ Cur.cls = "skip"    /\ Bump("skipped") /\ Advance /\ UNCHANGED fs
-AbortExec   == Running /\ Cur.cls = "timeout" /\ status' = "error" /\ UNCHANGED <<docs, flags, i, fs, counts>>
+AbortExec   == Running /\ Cur.cls \in {"timeout", "killed"} /\ status' = "error" /\ UNCHANGED <<docs, flags, i, fs, counts>>
 Unchanged   == Running /\ Cur.cls = "allpass" /\ ~IsConv(Cur) /\ Bump("unchanged") /\ Advance /\ UNCHANGED fs
 NeedsWrite  == Running /\ (Cur.cls \in Failing \/ (Cur.cls \in Runnable /\ IsConv(Cur)))
 AskNoTty    == NeedsWrite /\ Exists(fs[i], TargetOf(Cur)) /\ ~flags.yes
@@ -84,7 +85,7 @@ Run(ds, fl, k, files, cnt) ==
              tgt == IF conv THEN "conv" ELSE IF fl.replace THEN "orig" ELSE "new"
              inc(w) == [cnt EXCEPT ![w] = @ + 1]
          IN CASE d.cls \in {"notests", "prepend", "skip"} -> Run(ds, fl, k + 1, files, inc("skipped"))
-              [] d.cls = "timeout" -> [fs |-> files, counts |-> cnt, status |-> "error"]
+              [] d.cls \in {"timeout", "killed"} -> [fs |-> files, counts |-> cnt, status |-> "error"]
               [] d.cls = "allpass" /\ ~conv -> Run(ds, fl, k + 1, files, inc("unchanged"))
               [] OTHER -> IF files[k][tgt] # "absent" /\ ~fl.yes
                           THEN [fs |-> files, counts |-> cnt, status |-> "error"]
